@@ -133,7 +133,31 @@ def _interpret(impl, case):
     ops = case["ops"]
 
     def cut(i):
-        return {"init": case["init"], "ops": ops[: i + 1]}
+        c = {"init": case["init"], "ops": ops[: i + 1]}
+        if case.get("threads"):
+            c["threads"] = True
+        return c
+
+    def call(fn, *a):
+        """The call itself; with case["threads"] every call is made on a thread of its own, one after the other
+        (a connection whose packets are sent by whichever pool thread is free): still one history."""
+        if not case.get("threads"):
+            return fn(*a)
+        import threading
+        box = []
+
+        def run():
+            try:
+                box.append((True, fn(*a)))
+            except BaseException as e:  # noqa: BLE001 - re-raised in the calling thread
+                box.append((False, e))
+        t = threading.Thread(target=run)
+        t.start()
+        t.join()
+        ok, v = box[0]
+        if ok:
+            return v
+        raise v
 
     sa, sb = impl.build(case["init"]), impl.build(case["init"])
     cur = sa.value
@@ -165,7 +189,7 @@ def _interpret(impl, case):
             outs = []
             for S in (A, B):
                 try:
-                    outs.append(("ok", S.next_sequence()))
+                    outs.append(("ok", call(S.next_sequence)))
                 except _Unavailable:
                     outs.append(("unavailable", None))
                 except Exception as e:  # noqa
@@ -185,8 +209,8 @@ def _interpret(impl, case):
         if op == "n":
             exp = cur + n % 10
             try:
-                ga = A.next_sequence()
-                gb = B.next_sequence()
+                ga = call(A.next_sequence)
+                gb = call(B.next_sequence)
             except Exception as e:  # noqa
                 raise Violation("nth_equals_start_plus_n_mod_10", cut(i), exp,
                                 f"raised {type(e).__name__}: {e}", f"request n={n}")
@@ -210,8 +234,8 @@ def _interpret(impl, case):
                 for s_ in outgoing:
                     s_.broken = True
                 try:
-                    A.set_sequence_start(na)
-                    B.set_sequence_start(nb)
+                    call(A.set_sequence_start, na)
+                    call(B.set_sequence_start, nb)
                 finally:
                     for s_ in outgoing:
                         s_.broken = False
@@ -420,7 +444,12 @@ def _strategy():
     block = st.tuples(st.one_of(st.none(), setop), st.integers(0, 14))
     blocks = st.lists(block, min_size=1, max_size=10).map(
         lambda bl: [o for u, r in bl for o in (([u] if u is not None else []) + ["n"] * r)][:MAX_STEPS])
-    return st.builds(lambda i, ops: {"init": i, "ops": ops}, spec, st.one_of(flat, blocks))
+    def build(i, ops, th):
+        c = {"init": i, "ops": ops}
+        if th:
+            c["threads"] = True
+        return c
+    return st.builds(build, spec, st.one_of(flat, blocks), st.sampled_from([False] * 5 + [True]))
 
 
 def _bucket(n):
